@@ -1,1 +1,583 @@
-//! (placeholder; filled in by the check that owns it)
+//! "Do everything a consumer can do" with a byte string offered as a minidump (C01; reused by
+//! C03/C20). Every operation group is announced to an [`Observer`] before it starts (so that a
+//! monitor can attribute a hang / allocation to it) and runs under its own panic guard, so one
+//! panicking operation does not hide the ones after it.
+//!
+//! Order follows `print_minidump_dump` of minidump-stackwalk (`--dump`), extended with every
+//! query the library offers on the parsed values.
+use crate::core::{guard, PanicInfo};
+use minidump::system_info::{Cpu, Os};
+use minidump::*;
+
+pub trait Observer {
+    /// An operation group is about to start.
+    fn op(&mut self, label: &'static str);
+    /// The operation group `label` panicked.
+    fn panic(&mut self, label: &'static str, p: &PanicInfo);
+}
+
+/// Every operation label `exercise` can announce, in a fixed order (index = op code).
+pub const OPS: &[&str] = &[
+    "(not started)",
+    "Minidump::read",
+    "Minidump::print",
+    "get_stream<MinidumpSystemInfo>",
+    "get_stream<MinidumpMiscInfo>",
+    "get_stream<MinidumpMemoryList>",
+    "get_stream<MinidumpMemory64List>",
+    "Minidump::get_memory",
+    "get_stream<MinidumpThreadList>",
+    "MinidumpThreadList::print",
+    "MinidumpThread::context",
+    "MinidumpContext::print",
+    "MinidumpContext registers",
+    "MinidumpThread::stack_memory",
+    "MinidumpThread::last_error",
+    "MinidumpThread::print",
+    "get_stream<MinidumpModuleList>",
+    "MinidumpModuleList::print",
+    "MinidumpModuleList queries",
+    "get_stream<MinidumpUnloadedModuleList>",
+    "MinidumpUnloadedModuleList::print",
+    "MinidumpUnloadedModuleList queries",
+    "get_stream<MinidumpHandleDataStream>",
+    "MinidumpHandleDataStream::print",
+    "UnifiedMemoryList::print",
+    "MinidumpMemoryList::print",
+    "MinidumpMemory64List::print",
+    "memory queries",
+    "get_stream<MinidumpMemoryInfoList>",
+    "MinidumpMemoryInfoList::print",
+    "MinidumpMemoryInfoList queries",
+    "get_stream<MinidumpLinuxMaps>",
+    "MinidumpLinuxMaps::print",
+    "MinidumpLinuxMaps queries",
+    "UnifiedMemoryInfoList",
+    "get_stream<MinidumpException>",
+    "MinidumpException queries",
+    "MinidumpException::context",
+    "MinidumpException::print",
+    "get_stream<MinidumpAssertion>",
+    "MinidumpAssertion::print",
+    "MinidumpSystemInfo::print",
+    "MinidumpSystemInfo queries",
+    "MinidumpMiscInfo::print",
+    "get_stream<MinidumpThreadNames>",
+    "MinidumpThreadNames::print",
+    "get_stream<MinidumpThreadInfoList>",
+    "MinidumpThreadInfoList::print",
+    "get_stream<MinidumpBreakpadInfo>",
+    "MinidumpBreakpadInfo::print",
+    "get_stream<MinidumpCrashpadInfo>",
+    "MinidumpCrashpadInfo::print",
+    "get_stream<MinidumpMacCrashInfo>",
+    "MinidumpMacCrashInfo::print",
+    "get_stream<MinidumpMacBootargs>",
+    "MinidumpMacBootargs::print",
+    "get_stream<MinidumpLinuxCpuInfo>",
+    "get_stream<MinidumpLinuxEnviron>",
+    "get_stream<MinidumpLinuxLsbRelease>",
+    "get_stream<MinidumpLinuxProcStatus>",
+    "get_stream<MinidumpLinuxProcLimits>",
+    "get_stream<MinidumpSoftErrors>",
+    "text stream iterators",
+    "raw streams",
+    "(finished)",
+];
+pub fn op_code(label: &str) -> u8 {
+    OPS.iter().position(|o| *o == label).unwrap_or_else(|| panic!("exercise: label {label:?} is not in OPS")) as u8
+}
+
+/// What happened, for the non-triviality rule of C01: whether the dump opened, and for every
+/// stream type "Ok" or the error name.
+#[derive(Default, Clone, Debug, Hash, PartialEq, Eq)]
+pub struct Summary {
+    pub read: &'static str,
+    pub streams: Vec<(&'static str, &'static str)>,
+    pub threads: usize,
+    pub modules: usize,
+    pub contexts_ok: usize,
+    pub panics: usize,
+}
+
+const ALL_OS: [Os; 9] = [Os::Windows, Os::MacOs, Os::Ios, Os::Linux, Os::Solaris, Os::Android, Os::Ps3, Os::NaCl, Os::Unknown(0)];
+const ALL_CPU: [Cpu; 10] = [Cpu::X86, Cpu::X86_64, Cpu::Ppc, Cpu::Ppc64, Cpu::Sparc, Cpu::Arm, Cpu::Arm64, Cpu::Mips, Cpu::Mips64, Cpu::Unknown(0)];
+
+/// addresses around a range [b, b+size): both ends, one inside, one outside on each side
+fn around(b: u64, size: u64) -> [u64; 6] {
+    [b.wrapping_sub(1), b, b.wrapping_add(1), b.wrapping_add(size).wrapping_sub(1), b.wrapping_add(size), b.wrapping_add(size).wrapping_add(1)]
+}
+
+struct Run<'o> {
+    obs: &'o mut dyn Observer,
+    sum: Summary,
+}
+impl Run<'_> {
+    fn op<T>(&mut self, label: &'static str, f: impl FnOnce() -> T) -> Option<T> {
+        self.obs.op(label);
+        match guard(f) {
+            Ok(v) => Some(v),
+            Err(p) => {
+                self.sum.panics += 1;
+                self.obs.panic(label, &p);
+                None
+            }
+        }
+    }
+    fn stream<T>(&mut self, label: &'static str, f: impl FnOnce() -> Result<T, Error>) -> Option<T> {
+        match self.op(label, f) {
+            Some(Ok(v)) => {
+                self.sum.streams.push((label, "Ok"));
+                Some(v)
+            }
+            Some(Err(e)) => {
+                self.sum.streams.push((label, e.name()));
+                None
+            }
+            None => {
+                self.sum.streams.push((label, "panic"));
+                None
+            }
+        }
+    }
+}
+
+/// Open `bytes` as a minidump, request every stream, query and print everything.
+pub fn exercise(bytes: &[u8], obs: &mut dyn Observer) -> Summary {
+    let mut r = Run { obs, sum: Summary::default() };
+    let mut sink = std::io::sink();
+    let dump = match r.op("Minidump::read", || Minidump::read(bytes)) {
+        Some(Ok(d)) => {
+            r.sum.read = "Ok";
+            d
+        }
+        Some(Err(e)) => {
+            r.sum.read = e.name();
+            r.obs.op("(finished)");
+            return r.sum;
+        }
+        None => {
+            r.sum.read = "panic";
+            r.obs.op("(finished)");
+            return r.sum;
+        }
+    };
+    r.op("Minidump::print", || {
+        let _ = dump.print(&mut sink);
+    });
+
+    // ---- the streams others depend on
+    let sys = r.stream("get_stream<MinidumpSystemInfo>", || dump.get_stream::<MinidumpSystemInfo>());
+    let misc = r.stream("get_stream<MinidumpMiscInfo>", || dump.get_stream::<MinidumpMiscInfo>());
+    let mem32 = r.stream("get_stream<MinidumpMemoryList>", || dump.get_stream::<MinidumpMemoryList>());
+    let mem64 = r.stream("get_stream<MinidumpMemory64List>", || dump.get_stream::<MinidumpMemory64List>());
+    let mem = r.op("Minidump::get_memory", || dump.get_memory()).flatten();
+    let default_mem = UnifiedMemoryList::default();
+
+    // ---- threads
+    if let Some(tl) = r.stream("get_stream<MinidumpThreadList>", || dump.get_stream::<MinidumpThreadList>()) {
+        r.sum.threads = tl.threads.len();
+        r.op("MinidumpThreadList::print", || {
+            let _ = tl.print(&mut sink, mem.as_ref(), sys.as_ref(), misc.as_ref(), false);
+        });
+        r.op("MinidumpThreadList::print", || {
+            let _ = tl.print(&mut sink, mem.as_ref(), sys.as_ref(), misc.as_ref(), true);
+        });
+        r.op("MinidumpThreadList::print", || {
+            let _ = tl.print(&mut sink, None, None, None, false);
+            let _ = tl.print(&mut sink, None, None, None, true);
+            let _ = tl.print(&mut sink, None, sys.as_ref(), None, false);
+        });
+        let m = mem.as_ref().unwrap_or(&default_mem);
+        for t in &tl.threads {
+            if let Some(s) = &sys {
+                let ctx = r.op("MinidumpThread::context", || {
+                    let _ = tl.get_thread(t.raw.thread_id);
+                    let _ = t.context(s, None);
+                    t.context(s, misc.as_ref())
+                });
+                if let Some(Some(c)) = ctx {
+                    r.sum.contexts_ok += 1;
+                    r.op("MinidumpContext registers", || {
+                        let _ = (c.get_instruction_pointer(), c.get_stack_pointer(), c.register_size());
+                        for (n, _) in c.valid_registers() {
+                            let _ = c.format_register(n);
+                            let _ = c.get_register(n);
+                        }
+                        for n in c.general_purpose_registers() {
+                            let _ = c.get_register_always(n);
+                        }
+                        let _ = c.registers().count();
+                        let _ = c.get_register("no-such-register");
+                    });
+                    r.op("MinidumpContext::print", || {
+                        let _ = c.print(&mut sink);
+                    });
+                }
+            }
+            r.op("MinidumpThread::stack_memory", || {
+                if let Some(s) = t.stack_memory(m) {
+                    let _ = (s.memory_range(), s.base_address(), s.size(), s.bytes().len());
+                    let b = s.base_address();
+                    let _: Option<u64> = s.get_memory_at_address(b);
+                    let _: Option<u32> = s.get_memory_at_address(b.wrapping_add(s.size()).wrapping_sub(4));
+                    let _: Option<u64> = s.get_memory_at_address(b.wrapping_add(s.size()).wrapping_sub(4));
+                }
+                let _ = t.stack_memory(&default_mem).map(|s| s.memory_range());
+            });
+            r.op("MinidumpThread::last_error", || {
+                for cpu in ALL_CPU {
+                    let _ = t.last_error(cpu, m).map(|c| c.to_string());
+                }
+            });
+            r.op("MinidumpThread::print", || {
+                let _ = t.print(&mut sink, mem.as_ref(), sys.as_ref(), misc.as_ref(), false);
+                let _ = t.print(&mut sink, None, None, None, true);
+            });
+        }
+    }
+
+    // ---- modules
+    if let Some(ml) = r.stream("get_stream<MinidumpModuleList>", || dump.get_stream::<MinidumpModuleList>()) {
+        r.sum.modules = ml.iter().count();
+        r.op("MinidumpModuleList::print", || {
+            let _ = ml.print(&mut sink);
+        });
+        r.op("MinidumpModuleList queries", || {
+            let _ = ml.main_module().map(|m| m.code_file().len());
+            for m in ml.iter() {
+                let _ = (m.base_address(), m.size(), m.code_file().len(), m.code_identifier(), m.debug_file(), m.debug_identifier(), m.version());
+                let _ = m.print(&mut sink);
+                for a in around(m.base_address(), m.size()) {
+                    let _ = ml.module_at_address(a).map(|x| x.base_address());
+                }
+            }
+            let _ = ml.module_at_address(0);
+            let _ = ml.module_at_address(u64::MAX);
+            let _ = ml.by_addr().count();
+            let _ = ml.by_addr().rev().count();
+        });
+    }
+    if let Some(ul) = r.stream("get_stream<MinidumpUnloadedModuleList>", || dump.get_stream::<MinidumpUnloadedModuleList>()) {
+        r.op("MinidumpUnloadedModuleList::print", || {
+            let _ = ul.print(&mut sink);
+        });
+        r.op("MinidumpUnloadedModuleList queries", || {
+            for m in ul.iter() {
+                let _ = (m.base_address(), m.size(), m.code_file().len(), m.code_identifier(), m.debug_file(), m.debug_identifier(), m.version());
+                let _ = m.print(&mut sink);
+                for a in around(m.base_address(), m.size()) {
+                    let _ = ul.modules_at_address(a).count();
+                }
+            }
+            let _ = ul.modules_at_address(0).count();
+            let _ = ul.modules_at_address(u64::MAX).count();
+            let _ = ul.by_addr().count();
+        });
+    }
+
+    // ---- handles
+    if let Some(h) = r.stream("get_stream<MinidumpHandleDataStream>", || dump.get_stream::<MinidumpHandleDataStream>()) {
+        r.op("MinidumpHandleDataStream::print", || {
+            let _ = h.print(&mut sink);
+            for d in h.iter() {
+                let _ = d.print(&mut sink);
+                let _ = (d.type_name.as_ref().map(|s| s.len()), d.object_name.as_ref().map(|s| s.len()), d.object_infos.len());
+                for oi in &d.object_infos {
+                    let _ = oi.to_string();
+                }
+            }
+        });
+    }
+
+    // ---- memory
+    if let Some(m) = &mem {
+        r.op("UnifiedMemoryList::print", || {
+            let _ = m.print(&mut sink, true);
+            let _ = m.print(&mut sink, false);
+        });
+        r.op("memory queries", || {
+            for reg in m.iter() {
+                let _ = (reg.memory_range(), reg.bytes().len());
+                let _ = reg.print(&mut sink, true);
+                let _ = reg.print_contents(&mut sink);
+                let (b, sz) = (reg.base_address(), reg.size());
+                for a in around(b, sz) {
+                    let _ = m.memory_at_address(a).map(|x| x.base_address());
+                    let _: Option<u8> = reg.get_memory_at_address(a);
+                    let _: Option<u16> = reg.get_memory_at_address(a);
+                    let _: Option<u32> = reg.get_memory_at_address(a);
+                    let _: Option<u64> = reg.get_memory_at_address(a);
+                }
+                let _: Option<u64> = reg.get_memory_at_address(b.wrapping_add(sz).wrapping_sub(8));
+                let _: Option<u64> = reg.get_memory_at_address(b.wrapping_add(sz).wrapping_sub(7));
+            }
+            let _ = m.memory_at_address(0).is_some();
+            let _ = m.memory_at_address(u64::MAX).is_some();
+            let _ = m.by_addr().count();
+        });
+    }
+    if let Some(l) = &mem32 {
+        r.op("MinidumpMemoryList::print", || {
+            let _ = l.print(&mut sink, true);
+            let _ = l.print(&mut sink, false);
+            for reg in l.iter() {
+                let _ = reg.memory_range();
+                for a in around(reg.base_address, reg.size) {
+                    let _ = l.memory_at_address(a).map(|x| x.base_address);
+                    let _: Option<u64> = reg.get_memory_at_address(a);
+                }
+            }
+            let _ = l.by_addr().count();
+        });
+    }
+    if let Some(l) = &mem64 {
+        r.op("MinidumpMemory64List::print", || {
+            let _ = l.print(&mut sink, true);
+            let _ = l.print(&mut sink, false);
+            for reg in l.iter() {
+                let _ = reg.memory_range();
+                for a in around(reg.base_address, reg.size) {
+                    let _ = l.memory_at_address(a).map(|x| x.base_address);
+                    let _: Option<u64> = reg.get_memory_at_address(a);
+                }
+            }
+            let _ = l.by_addr().count();
+        });
+    }
+
+    // ---- memory info, Linux maps, the unified view
+    let info = r.stream("get_stream<MinidumpMemoryInfoList>", || dump.get_stream::<MinidumpMemoryInfoList>());
+    if let Some(mi) = &info {
+        r.op("MinidumpMemoryInfoList::print", || {
+            let _ = mi.print(&mut sink);
+        });
+        r.op("MinidumpMemoryInfoList queries", || {
+            for x in mi.iter() {
+                let _ = (x.memory_range(), x.is_readable(), x.is_writable(), x.is_executable());
+                let _ = x.print(&mut sink);
+                for a in around(x.raw.base_address, x.raw.region_size) {
+                    let _ = mi.memory_info_at_address(a).map(|y| y.raw.base_address);
+                }
+            }
+            let _ = mi.memory_info_at_address(0).is_some();
+            let _ = mi.memory_info_at_address(u64::MAX).is_some();
+            let _ = mi.by_addr().count();
+        });
+    }
+    let maps = r.stream("get_stream<MinidumpLinuxMaps>", || dump.get_stream::<MinidumpLinuxMaps>());
+    if let Some(mp) = &maps {
+        r.op("MinidumpLinuxMaps::print", || {
+            let _ = mp.print(&mut sink);
+        });
+        r.op("MinidumpLinuxMaps queries", || {
+            let _ = mp.memory_map_count();
+            for x in mp.iter() {
+                let _ = (x.memory_range(), x.is_readable(), x.is_writable(), x.is_executable());
+                let _ = x.print(&mut sink);
+                let (lo, hi) = x.map.address;
+                for a in around(lo, hi.wrapping_sub(lo)) {
+                    let _ = mp.memory_info_at_address(a).map(|y| y.map.address);
+                }
+            }
+            let _ = mp.memory_info_at_address(0).is_some();
+            let _ = mp.memory_info_at_address(u64::MAX).is_some();
+            let _ = mp.by_addr().count();
+        });
+    }
+    r.op("UnifiedMemoryInfoList", || {
+        for (i, m) in [(info.clone(), maps.clone()), (info.clone(), None), (None, maps.clone())] {
+            if let Some(u) = UnifiedMemoryInfoList::new(i, m) {
+                let _ = u.print(&mut sink);
+                let _ = (u.maps().is_some(), u.info().is_some());
+                let ranges: Vec<_> = u.iter().map(|x| (x.memory_range(), x.is_readable(), x.is_writable(), x.is_executable())).collect();
+                for (rg, ..) in ranges {
+                    if let Some(rg) = rg {
+                        for a in around(rg.start, rg.end.wrapping_sub(rg.start)) {
+                            let _ = u.memory_info_at_address(a).map(|y| y.memory_range());
+                        }
+                    }
+                }
+                for x in u.by_addr() {
+                    let _ = x.print(&mut sink);
+                }
+            }
+        }
+    });
+
+    // ---- exception
+    if let Some(e) = r.stream("get_stream<MinidumpException>", || dump.get_stream::<MinidumpException>()) {
+        r.op("MinidumpException queries", || {
+            for os in ALL_OS {
+                for cpu in ALL_CPU {
+                    let reason = e.get_crash_reason(os, cpu);
+                    let _ = reason.to_string();
+                    let _ = e.get_crash_address(os, cpu);
+                }
+            }
+            let _ = e.get_crashing_thread_id();
+        });
+        if let Some(s) = &sys {
+            r.op("MinidumpException::context", || {
+                if let Some(c) = e.context(s, misc.as_ref()) {
+                    let _ = (c.get_instruction_pointer(), c.get_stack_pointer());
+                    let _ = c.valid_registers().count();
+                }
+            });
+            r.op("MinidumpException queries", || {
+                let reason = e.get_crash_reason(s.os, s.cpu);
+                let _ = reason.to_string();
+                let _ = e.get_crash_address(s.os, s.cpu);
+            });
+        }
+        r.op("MinidumpException::print", || {
+            let _ = e.print(&mut sink, sys.as_ref(), misc.as_ref());
+        });
+        r.op("MinidumpException::print", || {
+            let _ = e.print(&mut sink, None, None);
+        });
+    }
+    if let Some(a) = r.stream("get_stream<MinidumpAssertion>", || dump.get_stream::<MinidumpAssertion>()) {
+        r.op("MinidumpAssertion::print", || {
+            let _ = a.print(&mut sink);
+            let _ = (a.expression(), a.function(), a.file());
+        });
+    }
+    if let Some(s) = &sys {
+        r.op("MinidumpSystemInfo::print", || {
+            let _ = s.print(&mut sink);
+        });
+        r.op("MinidumpSystemInfo queries", || {
+            let _ = (s.os_parts(), s.csd_version(), s.cpu_info());
+            let _ = (s.os.to_string(), s.cpu.to_string(), s.os.long_name(), s.cpu.pointer_width());
+        });
+    }
+    if let Some(m) = &misc {
+        r.op("MinidumpMiscInfo::print", || {
+            let _ = m.print(&mut sink);
+            let _ = m.process_create_time();
+        });
+    }
+    if let Some(t) = r.stream("get_stream<MinidumpThreadNames>", || dump.get_stream::<MinidumpThreadNames>()) {
+        r.op("MinidumpThreadNames::print", || {
+            let _ = t.print(&mut sink);
+            for id in [0u32, 1, 5, 10, 11, 12, u32::MAX] {
+                let _ = t.get_name(id).map(|n| n.len());
+            }
+        });
+    }
+    if let Some(t) = r.stream("get_stream<MinidumpThreadInfoList>", || dump.get_stream::<MinidumpThreadInfoList>()) {
+        r.op("MinidumpThreadInfoList::print", || {
+            let _ = t.print(&mut sink);
+            for id in [0u32, 1, 5, 10, 11, 12, u32::MAX] {
+                if let Some(i) = t.get_thread_info(id) {
+                    let _ = i.print(&mut sink);
+                }
+            }
+        });
+    }
+    if let Some(b) = r.stream("get_stream<MinidumpBreakpadInfo>", || dump.get_stream::<MinidumpBreakpadInfo>()) {
+        r.op("MinidumpBreakpadInfo::print", || {
+            let _ = b.print(&mut sink);
+            let _ = (b.dump_thread_id, b.requesting_thread_id);
+        });
+    }
+    if let Some(c) = r.stream("get_stream<MinidumpCrashpadInfo>", || dump.get_stream::<MinidumpCrashpadInfo>()) {
+        r.op("MinidumpCrashpadInfo::print", || {
+            let _ = c.print(&mut sink);
+            let _ = (c.simple_annotations.len(), c.module_list.len());
+            for m in &c.module_list {
+                let _ = (m.module_index, m.list_annotations.len(), m.simple_annotations.len(), m.annotation_objects.len());
+            }
+        });
+    }
+    if let Some(c) = r.stream("get_stream<MinidumpMacCrashInfo>", || dump.get_stream::<MinidumpMacCrashInfo>()) {
+        r.op("MinidumpMacCrashInfo::print", || {
+            let _ = c.print(&mut sink);
+            for rec in &c.raw {
+                let _ = (rec.version(), rec.thread(), rec.dialog_mode(), rec.abort_cause());
+                let _ = (rec.module_path(), rec.message(), rec.signature_string(), rec.backtrace(), rec.message2());
+            }
+        });
+    }
+    if let Some(c) = r.stream("get_stream<MinidumpMacBootargs>", || dump.get_stream::<MinidumpMacBootargs>()) {
+        r.op("MinidumpMacBootargs::print", || {
+            let _ = c.print(&mut sink);
+        });
+    }
+
+    // ---- Linux text streams: key/value iterators
+    let cpuinfo = r.stream("get_stream<MinidumpLinuxCpuInfo>", || dump.get_stream::<MinidumpLinuxCpuInfo>());
+    let environ = r.stream("get_stream<MinidumpLinuxEnviron>", || dump.get_stream::<MinidumpLinuxEnviron>());
+    let lsb = r.stream("get_stream<MinidumpLinuxLsbRelease>", || dump.get_stream::<MinidumpLinuxLsbRelease>());
+    let status = r.stream("get_stream<MinidumpLinuxProcStatus>", || dump.get_stream::<MinidumpLinuxProcStatus>());
+    let limits = r.stream("get_stream<MinidumpLinuxProcLimits>", || dump.get_stream::<MinidumpLinuxProcLimits>());
+    let soft = r.stream("get_stream<MinidumpSoftErrors>", || dump.get_stream::<MinidumpSoftErrors>());
+    r.op("text stream iterators", || {
+        fn kv<'a>(it: impl Iterator<Item = (&'a minidump::strings::LinuxOsStr, &'a minidump::strings::LinuxOsStr)>) {
+            for (k, v) in it {
+                let _ = (k.to_string_lossy().len(), v.to_string_lossy().len(), k.to_str().is_ok(), v.as_bytes().len());
+            }
+        }
+        if let Some(s) = &cpuinfo {
+            kv(s.iter());
+            let _ = s.raw_bytes().len();
+        }
+        if let Some(s) = &environ {
+            kv(s.iter());
+            let _ = s.raw_bytes().len();
+        }
+        if let Some(s) = &lsb {
+            kv(s.iter());
+            let _ = s.raw_bytes().len();
+        }
+        if let Some(s) = &status {
+            kv(s.iter());
+            let _ = s.raw_bytes().len();
+        }
+        if let Some(s) = &limits {
+            for l in s.iter() {
+                let _ = l.to_string_lossy().len();
+                let _ = l.split_ascii_whitespace().count();
+            }
+            let _ = s.raw_bytes().len();
+        }
+        if let Some(s) = &soft {
+            let _ = s.as_ref().len();
+        }
+    });
+
+    // ---- raw access to every directory entry, unknown / unimplemented listings
+    r.op("raw streams", || {
+        let types: Vec<u32> = dump.all_streams().map(|d| d.stream_type).collect();
+        for t in types {
+            if let Ok(b) = dump.get_raw_stream(t) {
+                // what print_raw_stream of minidump-stackwalk does with it
+                let _ = b.split(|&v| v == 0).map(String::from_utf8_lossy).collect::<Vec<_>>().join("\\0\n").len();
+            }
+        }
+        for s in crate::seeds::ALL_STREAM_TYPES {
+            let _ = dump.get_raw_stream(*s as u32).map(|b| b.len());
+        }
+        let _ = dump.unknown_streams().map(|s| (s.stream_type, s.vendor)).count();
+        let _ = dump.unimplemented_streams().map(|s| (s.stream_type, s.vendor)).count();
+        let _ = (dump.endian, dump.header.stream_count);
+    });
+    r.obs.op("(finished)");
+    r.sum
+}
+
+/// Observer that only counts (for callers that have their own monitors).
+#[derive(Default)]
+pub struct Quiet {
+    pub last_op: &'static str,
+    pub panics: Vec<(&'static str, PanicInfo)>,
+}
+impl Observer for Quiet {
+    fn op(&mut self, label: &'static str) {
+        self.last_op = label;
+    }
+    fn panic(&mut self, label: &'static str, p: &PanicInfo) {
+        self.panics.push((label, p.clone()));
+    }
+}
